@@ -52,6 +52,79 @@ def noEmptyMember (vs : List Bytes) : Bool := vs.all fun v => !v.isEmpty
 /-- no member of a string leaf-list contains the separator byte 0x1D. -/
 def no1D (vs : List Bytes) : Bool := vs.all fun v => v.all fun b => b ≠ 0x1D
 
+/-! ### homogeneous leaf-lists -/
+
+def collectStrs : List Scalar → Option (List (Bool × Bytes))
+  | [] => some []
+  | .str s :: r => match collectStrs r with | some xs => some ((false, s) :: xs) | none => none
+  | .ascii s :: r => match collectStrs r with | some xs => some ((true, s) :: xs) | none => none
+  | _ :: _ => none
+
+def collectInts : List Scalar → Option (List Int)
+  | [] => some []
+  | .int i :: r => match collectInts r with | some xs => some (i :: xs) | none => none
+  | _ :: _ => none
+
+def collectUints : List Scalar → Option (List Nat)
+  | [] => some []
+  | .uint i :: r => match collectUints r with | some xs => some (i :: xs) | none => none
+  | _ :: _ => none
+
+def collectBools : List Scalar → Option (List Bool)
+  | [] => some []
+  | .bool i :: r => match collectBools r with | some xs => some (i :: xs) | none => none
+  | _ :: _ => none
+
+def collectBytess : List Scalar → Option (List Bytes)
+  | [] => some []
+  | .bytes i :: r => match collectBytess r with | some xs => some (i :: xs) | none => none
+  | _ :: _ => none
+
+def collectFloats : List Scalar → Option (List Nat)
+  | [] => some []
+  | .float i :: r => match collectFloats r with | some xs => some (i :: xs) | none => none
+  | _ :: _ => none
+
+/-- the digits of a list of decimals that all have precision `p`. -/
+def collectDecs (p : Nat) : List Scalar → Option (List Int)
+  | [] => some []
+  | .dec d q :: r => if q = p then (match collectDecs p r with | some xs => some (d :: xs) | none => none) else none
+  | _ :: _ => none
+
+/-- The property's domain for leaf-lists, with the two conditions the code needs: a non-empty
+    list whose members are all of one type (strings may mix `StringVal` and `AsciiVal`), every
+    member a supported value (`scalarOK`), decimals of one precision — and, where the encoding is
+    lossy, no string member containing 0x1D and no empty bytes member. -/
+def leafListOK (es : List Scalar) : Bool :=
+  match es with
+  | [] => false
+  | .str _ :: _ | .ascii _ :: _ =>
+    match collectStrs es with
+    | some xs => no1D (xs.map (·.2))
+    | none => false
+  | .int _ :: _ =>
+    match collectInts es with
+    | some xs => xs.all isInt64
+    | none => false
+  | .uint _ :: _ =>
+    match collectUints es with
+    | some xs => xs.all isUint64
+    | none => false
+  | .bool _ :: _ => (collectBools es).isSome
+  | .bytes _ :: _ =>
+    match collectBytess es with
+    | some xs => noEmptyMember xs && xs.all fun v => decide (v.length < 2147483648)
+    | none => false
+  | .dec _ p :: _ =>
+    match collectDecs p es with
+    | some ds => ds.all isInt64 && decide (p < 256)
+    | none => false
+  | .float _ :: _ =>
+    match collectFloats es with
+    | some fs => fs.all fun f => decide (f < 4294967296) && !isNaN32 f
+    | none => false
+  | _ :: _ => false
+
 /-! ### independent readers for the JSON theorems -/
 
 /-- the natural number a string of decimal digits denotes (`none` unless every character is a
